@@ -57,7 +57,7 @@ Fixpoint frames_of (l : list val) : option (list bytes) :=
    writes, so every entry is there before its reply can arrive) *)
 Definition ep_with_calls (cs : list (Z * N)) : ep :=
   let pend := fold_left (fun p qi => pset p (fst qi) (mkCall (snd qi) (fst qi) [] [] [] x00 [])) cs [] in
-  mkEp 0 pend [] false [] O [] [] [] [] false.
+  mkEp 0 pend [] false [] [] [] [] [] [] false.
 
 (* one Write of the peer arrives; the reader step must consume exactly that Write *)
 Definition feed (cfg : config) (s : side) (st : state) (f : bytes) : option state :=
@@ -150,7 +150,7 @@ Definition run (inp : val) : option val :=
   | VL [VN lim; VL gz; VL ca; VL cb; VL fab; VL fba] =>
       match Corr.C12.pairs_of gz, calls_of ca, calls_of cb, frames_of fab, frames_of fba with
       | Some t, Some csa, Some csb, Some ab, Some ba =>
-          let cfg := mkCfg true (Corr.C12.registry_of t) lim harness_handler in
+          let cfg := mkCfg true true (Corr.C12.registry_of t) lim harness_handler in
           let '(ra, oka) := side_result cfg SA csa ba ab in
           let '(rb, okb) := side_result cfg SB csb ab ba in
           Some (VL [ra; rb; vbool (oka && okb)])
